@@ -11,5 +11,5 @@ CONSTANTS
   Pads = {0}
   Padfs = {0}
 VIEW view
-INVARIANTS Inv_Covered Inv_NoTwin Inv_StaleGone Inv_Foreign Inv_Idempotent Inv_Converges Inv_Accounting Inv_FoldAgrees
+INVARIANTS Inv_Covered Inv_KeepsCovered Inv_NoTwin Inv_StaleGone Inv_Foreign Inv_Idempotent Inv_Converges Inv_Accounting Inv_FoldAgrees
 CHECK_DEADLOCK FALSE
